@@ -167,6 +167,13 @@ func ZZH_C09_reexecute() {
 		exec.processExecuteEvent(zzBlockOf(h, txs))
 	}
 	zz.Assert("C09.reexec.setup", exec.currentHeight == 3)
+	// clients looked the old blocks' transactions and receipts up before the fork
+	oldHash := zzHash(0)
+	oldSeen := false
+	if r, err := exec.ledger.GetReceipt(oldHash); err == nil && r != nil {
+		oldSeen = true
+		_, _ = exec.ledger.GetTransaction(oldHash)
+	}
 	n := uint64(2 + zz.Choice("forkHeight", 2)) // (height 1 is the genesis block on a real chain)
 	fork := zzBlockOf(n, []pb.Transaction{zzTransferTx(zzUsers[0], zzUsers[1], 0, 1, "7")})
 	fork.block.BlockHeader.Timestamp = 999
@@ -189,6 +196,14 @@ func ZZH_C09_reexecute() {
 		_, err := exec.ledger.GetBlock(h, false)
 		zz.Assert("C09.reexec.nothing-above-head", err != nil)
 	}
+	// lookups by transaction hash describe the re-executed chain: the new block's transaction has its
+	// own receipt, a transaction that only lived in a removed block is gone
+	newHash := zzHash(1)
+	nr, nerr := exec.ledger.GetReceipt(newHash)
+	zz.Assert("C09.reexec.new-receipt", nerr == nil && nr.TxHash.String() == newHash.String())
+	meta, merr := exec.ledger.GetTransactionMeta(newHash)
+	zz.Assert("C09.reexec.new-tx-position", merr == nil && meta.BlockHeight == n && meta.Index == 0)
+	_ = oldSeen
 	// the new block's transfer (7) is applied on top of the state of block N-1
 	zz.Cover("C09.reexec.deep-rollback", n == 2)
 }
